@@ -1071,6 +1071,8 @@ func c17Run(c *Case) (string, []Fail) {
 		return c17RunListenerTrace(c)
 	case 2:
 		return c17RunE2E(c)
+	case 3:
+		return c17RunRecover(c)
 	}
 	return "badcase", nil
 }
